@@ -154,6 +154,9 @@ func checkState(o *core.Outcome, p *Plan, env *Env, mr *ModelResult, tags []stri
 
 // runC10: callback handlers fire exactly once per execution unit, paired, for the right node.
 func runC10(t *kernel.Tape, opt core.Opts) *core.Outcome {
+	if t.Plan(5) == 0 {
+		return runInterrupts(t, opt, "C10") // callbacks across interrupt and resume
+	}
 	o := &core.Outcome{}
 	g := GenOpts{Modes: []int{ModePregel, ModeDAG, ModeWorkflow}, MaxNodes: 6, Depth: 2, Cycles: true, State: 20,
 		Streams: t.PlanBool(60), Handlers: true, Yields: 2, Parallelism: t.PlanBool(60)}
